@@ -127,6 +127,9 @@ pub struct Hooks {
     pub zst_elems: bool,
     /// weight multiplier for the element budget (expensive element types get small containers)
     pub budget: usize,
+    /// every value of the type has the same encoded size (fields, points): the reader must
+    /// never be asked for a byte beyond it, whatever the bytes are
+    pub fixed_size: bool,
 }
 
 pub struct Exec {
@@ -753,6 +756,11 @@ fn read_untrusted<T: Sem>(
         };
     }
     let budget = 64 * medium.len() + (16 << 20);
+    let fixed = if hooks.fixed_size {
+        catch_unwind(AssertUnwindSafe(|| gen_value::<T>(&ValSpec { seed: 1, simple: true, budget: 0 }, false).size(c))).ok()
+    } else {
+        None
+    };
     let mut rd = SimReader::new(medium, 0, &plan.rplan);
     let mut result = Ok(());
     for _ in 0..nrec {
@@ -780,6 +788,18 @@ fn read_untrusted<T: Sem>(
                 usage.peak_delta,
                 hex(&medium[start.min(medium.len())..])
             );
+        }
+        if let Some(sz) = fixed {
+            if rd.max_req_end > start + sz {
+                fail!(
+                    "R3.read_past_size",
+                    "",
+                    "advertised size is {} bytes but a read asked for bytes up to offset {} of {}",
+                    sz,
+                    rd.max_req_end - start,
+                    hex(&medium[start.min(medium.len())..])
+                );
+            }
         }
         if rd.counts.calls as usize > 64 + 4 * medium.len() {
             fail!("R3.step_budget", "", "{} read calls for {} bytes of input", rd.counts.calls, medium.len());
